@@ -78,10 +78,14 @@ static void model_case_impl(Case& c, int l0pass, std::vector<std::string>* snaps
     int rr4 = rng.in(0, 8); config.reproductive_rate = rr4 / 4.0;
     int dir = rng.in(0, 7);
     bool overpop_uniform = rng.coin(30);  // the natural kernel type only drives the overpopulation kernel here (the spread kernel is injected)
-    config.natural_kernel_type = overpop_uniform ? "uniform" : "deterministic neighbor"; config.natural_direction = DIRS[dir];
-    config.natural_scale = 1; config.natural_kappa = 0; config.anthro_kernel_type = "cauchy"; config.anthro_scale = 1;
+    // third variant: a radial natural kernel type with dispersal_stochasticity off, i.e. the overpopulation move goes
+    // through the DeterministicDispersalKernel member of the switch kernel (3x3 window: Cauchy, scale 5, 30 m cells)
+    bool overpop_detradial = !overpop_uniform && rng.coin(25);
+    config.natural_kernel_type = overpop_uniform ? "uniform" : overpop_detradial ? "cauchy" : "deterministic neighbor"; config.natural_direction = overpop_detradial ? "none" : DIRS[dir];
+    config.natural_scale = overpop_detradial ? 5 : 1; config.natural_kappa = 0; config.anthro_kernel_type = "cauchy"; config.anthro_scale = 1;
     config.anthro_direction = "none"; config.use_anthropogenic_kernel = false; config.dispersal_percentage = 0.9;
-    config.dispersal_stochasticity = true;
+    config.dispersal_stochasticity = !overpop_detradial;
+    stats.add(overpop_uniform ? "overpop_kernel_uniform" : overpop_detradial ? "overpop_kernel_deterministic_radial" : "overpop_kernel_neighbor");
     // for one host both arrival behaviours are documented to give identical results
     bool land = rng.coin(30); if (land) config.set_arrival_behavior("land");
     stats.add(land ? "arrival_land" : "arrival_infect");
@@ -131,6 +135,23 @@ static void model_case_impl(Case& c, int l0pass, std::vector<std::string>* snaps
     std::vector<std::vector<int>> movements;
     if (config.use_movements) {
         int nrows = rng.in(0, 6); unsigned cur = 0;
+        // SEI: a herd of exposed-only hosts moved into a cell without any host, early in the run, so that its
+        // cohorts mature in the NEW cell later on (the target must become a suitable cell although it never
+        // holds a susceptible or infected host at the time of the move)
+        if (sei && !h.e.empty() && rows * cols >= 2 && rng.coin(45)) {
+            int a = rng.in(0, rows * cols - 1), b = rng.in(0, rows * cols - 2); if (b >= a) b++;
+            int ar = a / cols, ac = a % cols, br = b / cols, bc = b % cols;
+            h.s(ar, ac) = 0; h.i(ar, ac) = 0; h.r(ar, ac) = 0; for (auto& m : h.m) m(ar, ac) = 0;
+            int se = 0; for (auto& x : h.e) { int v = rng.in(0, 4); x(ar, ac) = v; se += v; }
+            if (se == 0) { h.e.back()(ar, ac) = 2; se = 2; }
+            h.te(ar, ac) = se; h.th(ar, ac) = se;
+            h.s(br, bc) = 0; h.i(br, bc) = 0; h.r(br, bc) = 0; h.te(br, bc) = 0; h.th(br, bc) = 0;
+            for (auto& m : h.m) m(br, bc) = 0; for (auto& x : h.e) x(br, bc) = 0;
+            h.suitable = find_suitable_cells<int>(h.th);
+            movements.push_back({ar, ac, br, bc, rng.coin(50) ? se : se + rng.in(0, 5)});
+            config.movement_schedule.push_back(cur);
+            stats.add("exposed_only_herd_into_empty_cell");
+        }
         for (int k = 0; k < nrows; k++) {
             cur += (unsigned)rng.in(0, 3); if (cur >= nsteps) break;
             movements.push_back({rng.in(0, rows - 1), rng.in(0, cols - 1), rng.in(0, rows - 1), rng.in(0, cols - 1), rng.coin(30) ? rng.in(0, 60) : rng.in(0, 10)});
@@ -185,7 +206,7 @@ static void model_case_impl(Case& c, int l0pass, std::vector<std::string>* snaps
             bool all = rng.coin(35);
             std::string te = err_kind([&] { treatments.add_treatment(map, d, days, all ? TreatmentApplication::AllInfectedInCell : TreatmentApplication::Ratio); });
             if (te.empty()) {
-                Date de(d); de.add_days((unsigned)days);
+                int ey, em, ed; ::verif::civil_add_days(d.year(), d.month(), d.day(), days, ey, em, ed); Date de(ey, em, ed);  // independent of Date::add_days
                 unsigned s0 = config.scheduler().schedule_action_date(d), s1 = days ? config.scheduler().schedule_action_date(de) : s0;
                 tlist << " " << (days ? "pesticide" : "simple") << ":" << (all ? "all_infected_in_cell" : "ratio") << ":" << s0 << ":" << s1 << cs.str();
             }
@@ -240,7 +261,7 @@ static void model_case_impl(Case& c, int l0pass, std::vector<std::string>* snaps
             out << "\n";
             outside_seen = outside.size(); stats.add("dispersers_total", (long)klog.targets.size());
         } else if (a == "overpopulation") {
-            out << "hp.overpop " << rat64(thr64) << " " << rat64(leave64) << " " << (overpop_uniform ? std::string("U U") : std::to_string(DROW[dir]) + " " + std::to_string(DCOL[dir])) << " => - " << h.snapshot() << " |";
+            out << "hp.overpop " << rat64(thr64) << " " << rat64(leave64) << " " << (overpop_uniform ? std::string("U U") : overpop_detradial ? std::string("D D") : std::to_string(DROW[dir]) + " " + std::to_string(DCOL[dir])) << " => - " << h.snapshot() << " |";
             for (size_t k = outside_seen; k < outside.size(); k++) out << " " << std::get<0>(outside[k]) << "," << std::get<1>(outside[k]);
             out << "\n"; outside_seen = outside.size();
         } else if (a == "movement") {
